@@ -1,5 +1,6 @@
 import CC.Lemmas.Prims
 import CC.Lemmas.Disabled
+import CC.Lemmas.Contig
 /-! # C06 — disabled attributes can never be encrypted to again, but stay decryptable -/
 
 namespace CC.Props.C06
@@ -129,5 +130,42 @@ theorem disable_then_update (w : World) (hr : Reachable w) (dn nm : String) (s' 
   refine ⟨d, a, h1, h2, ?_⟩
   simp only [World.step, Struct.apply, h]
   exact h3
+
+/-- **… but stay decryptable.** A successful `update_msk` (in particular the one that follows a
+`disable_attribute`) changes no secret of any right the structure still defines — only the
+activation flag of the newest one: a user key that opened an encapsulation through a secret of
+such a right still holds a secret the master key holds, so (C04 `keep_refresh_still_opens`) it
+keeps opening that encapsulation after a refresh with `keep`, and (C09) it stays refreshable. -/
+theorem update_keeps_defined_rights (w : World) (hw : Reachable w) (k : Right)
+    (c : List (Bool × Sk)) (hl : w.msk.secrets.lookup k = some c)
+    (hsurv : (w.msk.structure_.omega.lookup k).isSome = true)
+    (hok : (updateMsk w.msk w.msk.structure_.omega w.rng).1 = .ok ()) :
+    ∃ c', (w.step .update).msk.secrets.lookup k = some c' ∧ c'.map (·.2) = c.map (·.2) := by
+  rcases update_keeps_secrets w hw k c hl with hnone | h
+  · exfalso
+    simp only [World.step] at hnone
+    unfold updateMsk at hnone hok
+    split at hnone
+    · rw [hl] at hnone; cases hnone
+    · rename_i hpre
+      simp only [hpre, Bool.false_eq_true, if_false] at hok
+      simp only at hnone
+      rcases hu : updateLoop (w.msk.secrets.retain fun r => (w.msk.structure_.omega.lookup r).isSome)
+          w.msk.structure_.omega w.rng with ⟨res, n'⟩
+      rw [hu] at hnone hok
+      cases res with
+      | error e => simp at hok
+      | ok s =>
+        simp only at hnone
+        have hu' : (updateLoop (w.msk.secrets.retain fun r => (w.msk.structure_.omega.lookup r).isSome)
+          w.msk.structure_.omega w.rng).1 = .ok s := by rw [hu]
+        cases hlo : w.msk.structure_.omega.lookup k with
+        | none => rw [hlo] at hsurv; cases hsurv
+        | some fl =>
+          obtain ⟨hyb, ro⟩ := fl
+          rcases updateLoop_lookup_mem _ _ _ _ (omega_keys_nodup _) hu' k hyb ro (Look.lookup_mem hlo) with ⟨h0, t, _, h2⟩ | ⟨_, t, _, _, h4⟩
+          · rw [h2] at hnone; cases hnone
+          · rw [h4] at hnone; cases hnone
+  · exact h
 
 end CC.Props.C06
